@@ -60,5 +60,46 @@ theorem C06_message_len_counterexample :
     let c1 := (reqFinalize {} c0).1
     ((c1.findTx 0).map (·.reqEntityLen)) = some 4 ∧ ((c1.findTx 0).map (·.reqMessageLen)) = some 0 := by
   decide
+/-- bytes of the current chunk-coded piece that the next call of REQ_BODY_CHUNKED_DATA takes: min(left in this piece, available) -/
+def takeChunk (c : Conn) : Int :=
+  if c.inn.len - c.inn.read ≥ c.inn.chunkedLength then c.inn.chunkedLength else c.inn.len - c.inn.read
+
+/-- **C06 (chunked body: exactly min(left in the piece, available) is consumed)**: whenever REQ_BODY_CHUNKED_DATA does not fail, the
+    read and consume cursors advance by exactly `takeChunk c`, the bytes still owed for this piece decrease by exactly that amount,
+    and the state moves on to the piece's terminating line precisely when nothing is owed any more - for every chunk, cursor
+    position and callback policy. -/
+theorem C06_chunked_cursor (cfg : Cfg) (c : Conn) (hn : takeChunk c ≠ 0)
+    (hrc : (reqBodyChunkedData cfg c).2 = .ok ∨ (reqBodyChunkedData cfg c).2 = .data) :
+    (reqBodyChunkedData cfg c).1.inn.read = c.inn.read + takeChunk c ∧
+    (reqBodyChunkedData cfg c).1.inn.consume = c.inn.consume + takeChunk c ∧
+    (reqBodyChunkedData cfg c).1.inn.chunkedLength = c.inn.chunkedLength - takeChunk c ∧
+    ((reqBodyChunkedData cfg c).2 = .ok ↔ c.inn.chunkedLength - takeChunk c = 0) := by
+  unfold reqBodyChunkedData at hrc ⊢
+  unfold takeChunk at hn ⊢
+  simp only at hrc ⊢
+  generalize hN : (if c.inn.len - c.inn.read ≥ c.inn.chunkedLength then c.inn.chunkedLength else c.inn.len - c.inn.read) = N at *
+  have hN0 : (N == 0) = false := by simpa using hn
+  simp only [hN0] at hrc ⊢
+  generalize hP : reqProcessBodyData cfg (some (sliceCur c.inn c.inn.read (c.inn.read + N))) 0 c = P at *
+  have hframe : FrameDirs c P.1 := by rw [← hP]; exact frame_reqProcessBodyData ..
+  obtain ⟨hr, hl, hc, _, _, _, _, hb, _⟩ := hframe.inn_fields
+  by_cases hok : (P.2 != Rc.ok) = true
+  · simp only [hok, if_true] at hrc ⊢
+    have : P.2 ≠ Rc.ok := by simpa using hok
+    rcases hrc with h | h
+    · exact absurd h this
+    · exfalso
+      have hrcs : P.2 = Rc.ok ∨ P.2 = Rc.error := by
+        rw [← hP]; exact reqProcessBodyData_rc ..
+      rcases hrcs with h' | h'
+      · exact this h'
+      · rw [h'] at h; cases h
+  · have hok' : (P.2 != Rc.ok) = false := by simpa using hok
+    simp only [hok', Bool.false_eq_true, if_false] at hrc ⊢
+    by_cases hz : c.inn.chunkedLength - N = 0
+    · have hz' : (P.1.inn.chunkedLength - N == 0) = true := by rw [hb]; simpa using hz
+      simp [hz', Dir.advance, hr, hc, hb, hz]
+    · have hz' : (P.1.inn.chunkedLength - N == 0) = false := by rw [hb]; simpa using hz
+      simp [hz', Dir.advance, hr, hc, hb, hz]
 
 end Htp.C06
